@@ -185,7 +185,7 @@ func (e *Enc) externalModel(callee *ssa.Function) bool {
 	case "strings.HasPrefix", "strings.HasSuffix", "strings.Contains", "strings.TrimPrefix", "strings.TrimSuffix", "strings.Index",
 		"errors.New", "fmt.Errorf", "fmt.Sprintf", "fmt.Sprint", "strings.Repeat",
 		"sync/atomic.LoadInt32", "sync/atomic.StoreInt32", "sync/atomic.AddInt32", "sync/atomic.CompareAndSwapInt32",
-		"sync/atomic.LoadInt64", "sync/atomic.StoreInt64", "sync/atomic.AddInt64", "sort.Slice", "sort.SliceStable", "regexp.MustCompile", "regexp.(*Regexp).MatchString", "strings.Trim":
+		"sync/atomic.LoadInt64", "sync/atomic.StoreInt64", "sync/atomic.AddInt64", "sort.Slice", "sort.SliceStable", "regexp.MustCompile", "regexp.(*Regexp).MatchString", "strings.Trim", "strings.Split", "strings.SplitN":
 		return true
 	}
 	return false
@@ -269,6 +269,51 @@ func (f *Frame) externalCall(callee *ssa.Function, args []string, argVals []ssa.
 			return callOut{reach, []string{r}, st}, true
 		}
 		return callOut{}, false
+	case "strings.Split", "strings.SplitN":
+		// Split(s, sep) / SplitN(s, sep, n) with a non-empty constant separator and (for SplitN) n >= 2 constant:
+		// a fresh slice; one element (s itself) iff sep does not occur; otherwise the first element is the text before
+		// the first occurrence, and for SplitN(.., 2) the second is everything after it.
+		c, ok := argVals[1].(*ssa.Const)
+		if !ok || c.Value == nil || c.Value.Kind() != constant.String || constant.StringVal(c.Value) == "" {
+			return callOut{}, false
+		}
+		n := int64(-1)
+		if key == "strings.SplitN" {
+			nc, ok := argVals[2].(*ssa.Const)
+			if !ok || nc.Value == nil {
+				return callOut{}, false
+			}
+			n, _ = constant.Int64Val(nc.Value)
+			if n < 2 {
+				return callOut{}, false
+			}
+		}
+		sep := args[1]
+		sl := types.NewSlice(types.Typ[types.String])
+		ref := e.allocRef(st)
+		comp := elemCompName(e, types.Typ[types.String])
+		rowSort := fmt.Sprintf("(Array %s String)", e.idxSort())
+		h := e.comp(st, comp, fmt.Sprintf("(Array Int %s)", rowSort))
+		row := e.freshConst(f.prefix+"splitrow", rowSort)
+		e.setComp(st, comp, fmt.Sprintf("(store %s %s %s)", h, ref, row))
+		ln := e.freshConst(f.prefix+"splitlen", e.idxSort())
+		res := e.define(f.prefix+"split", "Slice", fmt.Sprintf("(mkSlice %s %s %s %s)", ref, e.idxLit("0"), ln, ln))
+		_ = sl
+		has := fmt.Sprintf("(str.contains %s %s)", args[0], sep)
+		idx := fmt.Sprintf("(str.indexof %s %s 0)", args[0], sep)
+		first := fmt.Sprintf("(select %s %s)", row, e.idxLit("0"))
+		e.assume(reach, fmt.Sprintf("(and %s (= (not %s) (= %s %s)) (=> (not %s) (= %s %s)))",
+			e.idxLe(e.idxLit("1"), ln), has, ln, e.idxLit("1"), has, first, args[0]))
+		if n == 2 {
+			e.assume(reach, fmt.Sprintf("(=> %s (= %s (str.substr %s 0 %s)))", has, first, args[0], idx))
+		}
+		if n == 2 {
+			second := fmt.Sprintf("(select %s %s)", row, e.idxLit("1"))
+			e.assume(reach, fmt.Sprintf("(and %s (=> %s (and (= %s %s) (= %s (str.substr %s (+ %s (str.len %s)) (str.len %s))))))",
+				e.idxLe(ln, e.idxLit("2")), has, ln, e.idxLit("2"), second, args[0], idx, sep, args[0]))
+		}
+		e.note("assumed: model of %s (fresh slice; one element, the string itself, iff the separator does not occur; SplitN(..,2): text before / after the first separator)", key)
+		return callOut{reach, []string{res}, st}, true
 	case "sort.Slice", "sort.SliceStable":
 		if out, ok := f.sortSliceModel(callee, argVals, reach, st, in); ok {
 			return out, true
